@@ -41,7 +41,7 @@ def run(chk, replay=None):
     with concurrent.futures.ThreadPoolExecutor(max_workers=1) as bg:
         # 1. design level: Unescape(Escape(s)) = s and no markup token in Escape(s), all class strings up to the bound
         mc_cfg = "Codec.cfg" if quick else "Codec4.cfg"
-        mc_f = bg.submit(vf.tlc_mc, "Codec.tla", mc_cfg, cc.PROCS)
+        mc_f = bg.submit(vf.tlc_mc, "Codec.tla", mc_cfg, cc.TLC_WORKERS)
         if replay:
             jobs = [j for j in vf.read_ndjson(replay) if "k" in j]
             gen = {}
@@ -55,6 +55,14 @@ def run(chk, replay=None):
                       "nfixed": 2 if quick else 0}
                      for i in range(len(seeds))]
             jobs += _obj_jobs(reg["objects"], plans, [0, 7] if quick else [0, 1, 7])
+            # presence lattice per type (Lattice(n) of spec/Codec.tla): no field, every single field, all but one, all
+            for t in reg["objects"]:
+                nf = len(t["fields"])
+                subsets = [set()] + [{i} for i in range(nf)] + [set(range(nf)) - {i} for i in range(nf)] + [set(range(nf))]
+                for sub in subsets:
+                    for cls in ("Plain", "Lt"):
+                        jobs.append({"k": "obj", "id": f"l{len(jobs)}", "cls": t["name"], "map": -1,
+                                     "vals": [cls if i in sub else "" for i in range(nf)], "variant": 0})
             # default-constructed and fully set objects, getters logged (determinism across heap fill patterns)
             k = len(plans[0]["steps"]) - 2
             for t in reg["objects"]:
@@ -80,6 +88,7 @@ def run(chk, replay=None):
         "evaluations": len(objs) + sum(o["tried"] for o in subs) + sum(o["runs"] for o in sds) + sum(o["n"] for o in scal),
         "distinct_nontrivial": sum(1 for o in objs if o.get("nset", 0) > 0) + sum(o["tried"] for o in subs),
         "object_cases": len(objs),
+        "presence_lattice_cases": sum(1 for o in objs if o.get("map") == -1),
         "object_types": len(reg["objects"]),
         "object_fields": sum(len(t["fields"]) for t in reg["objects"]),
         "registry_classes": len(reg["registry"]),
